@@ -378,6 +378,239 @@ theorem run_answers (render : Nat → List Char) (s : Sess) (evs : List Ev) (r :
         · right; exact h
       · exact ih _ h
 
+/-! ## the builder: which endpoint is built, with which allowlist -/
+
+/-- **applyAll_spec**: a chain of builder calls that succeeds leaves exactly the allowlist made of its
+    `add_allowed_address` arguments in call order, and the destination of its LAST destination call — the
+    listener calls (`with_http_listener`, `with_http_uds_listener`, `with_push_gateway`) never drop or change
+    the allowlist, wherever they stand in the chain. -/
+theorem applyAll_spec (b b' : Builder) (ops : List BOp) (h : b.applyAll ops = some b') :
+    addAll b.allowed (entriesOf ops) = some b'.allowed ∧ b'.dest = lastDest b.dest ops := by
+  induction ops generalizing b with
+  | nil => simp [Builder.applyAll] at h; subst h; simp [addAll, entriesOf, lastDest]
+  | cons o os ih =>
+    cases o with
+    | httpListener a => simpa [Builder.applyAll, Builder.apply, entriesOf, lastDest] using ih _ h
+    | udsListener p => simpa [Builder.applyAll, Builder.apply, entriesOf, lastDest] using ih _ h
+    | pushGateway => simpa [Builder.applyAll, Builder.apply, entriesOf, lastDest] using ih _ h
+    | allow e =>
+      simp only [Builder.applyAll, Builder.apply] at h
+      cases ha : addAllowed b.allowed e with
+      | none => simp [ha] at h
+      | some al =>
+        simp only [ha, Option.map_some] at h
+        have := ih _ h
+        simpa [entriesOf, lastDest, addAll, ha] using this
+
+/-- **applyAll_fails_iff**: a chain fails exactly when one of its `add_allowed_address` arguments is outside
+    the documented syntax; the listener calls never fail and never make a later call fail. -/
+theorem applyAll_fails_iff (b : Builder) (ops : List BOp) :
+    b.applyAll ops = none ↔ addAll b.allowed (entriesOf ops) = none := by
+  induction ops generalizing b with
+  | nil => simp [Builder.applyAll, addAll, entriesOf]
+  | cons o os ih =>
+    cases o with
+    | httpListener a => simpa [Builder.applyAll, Builder.apply, entriesOf] using ih _
+    | udsListener p => simpa [Builder.applyAll, Builder.apply, entriesOf] using ih _
+    | pushGateway => simpa [Builder.applyAll, Builder.apply, entriesOf] using ih _
+    | allow e =>
+      simp only [Builder.applyAll, Builder.apply, entriesOf, addAll]
+      cases ha : addAllowed b.allowed e with
+      | none => simp
+      | some al => simpa using ih _
+
+/-- **builder_order_free**: two chains with the same `add_allowed_address` arguments (in the same order)
+    configure the same allowlist, however the listener calls are interleaved — in particular calling
+    `with_http_listener` AFTER `add_allowed_address` keeps the allowlist. -/
+theorem builder_order_free (ops ops' : List BOp) (b b' : Builder)
+    (h : Builder.new.applyAll ops = some b) (h' : Builder.new.applyAll ops' = some b')
+    (he : entriesOf ops = entriesOf ops') : b.allowed = b'.allowed := by
+  have h1 := (applyAll_spec _ _ _ h).1
+  have h2 := (applyAll_spec _ _ _ h').1
+  rw [he, h2] at h1
+  exact (Option.some.inj h1).symm
+
+/-- **build_tcp_keeps_allowlist**: when the last destination call of a successful chain is
+    `with_http_listener(a)` (or there is none and `a` is the default `0.0.0.0:9000`), `build` starts a TCP
+    listener on `a` whose allowlist is the one made of all `add_allowed_address` arguments. -/
+theorem build_tcp_keeps_allowlist (ops : List BOp) (b : Builder) (a : Nat)
+    (h : Builder.new.applyAll ops = some b) (hd : lastDest (.tcp defaultListen) ops = .tcp a) :
+    addAll none (entriesOf ops) = some b.allowed ∧ b.build = .tcp a b.allowed := by
+  obtain ⟨h1, h2⟩ := applyAll_spec _ _ _ h
+  refine ⟨h1, ?_⟩
+  have : b.dest = .tcp a := by rw [h2]; exact hd
+  simp [Builder.build, this]
+
+/-- **no_calls_default_endpoint**: `PrometheusBuilder::new().build()` listens on `0.0.0.0:9000` for everybody. -/
+theorem no_calls_default_endpoint : Builder.new.build = .tcp defaultListen none := rfl
+
+/-- **build_uds_drops_allowlist** (an oddity of the code, stated as it is): when the last destination call is
+    `with_http_uds_listener`, the endpoint has no allowlist whatever `add_allowed_address` calls were made —
+    every unix-socket client is allowed.  (A unix-socket peer has no IP address; the property's allowlist clause
+    speaks of peers with addresses.) -/
+theorem build_uds_drops_allowlist (ops : List BOp) (b : Builder) (p : Nat)
+    (h : Builder.new.applyAll ops = some b) (hd : lastDest (.tcp defaultListen) ops = .uds p) :
+    b.build = .uds p ∧ b.build.isAllowed .unix = some true := by
+  obtain ⟨_, h2⟩ := applyAll_spec _ _ _ h
+  have : b.dest = .uds p := by rw [h2]; exact hd
+  simp [Builder.build, this, Endpoint.isAllowed]
+
+/-! ## whole requests: method, headers and source port play no part -/
+
+/-- a refusal is the same on the wire for every method -/
+theorem wire_forbidden (m : List Char) : wire m ⟨403, []⟩ = ⟨403, []⟩ := by
+  unfold wire; split <;> rfl
+
+/-- **deny_outside_any_request**: a TCP peer that no listed network matches is refused with 403 and an empty
+    body whatever it sends: every method (`GET`, `POST`, `OPTIONS`, `HEAD`, …), every header set
+    (`X-Forwarded-For` included), every target, from every source port (privileged ones included), on every
+    listen address. -/
+theorem deny_outside_any_request (addr : Nat) (nets : List Net) (a : Addr) (port : Nat) (q : Req)
+    (rendered : List Char) (h : ∀ n, n ∈ nets → peerMatches n a = false) :
+    (Endpoint.tcp addr (some nets)).isAllowed (.ip a port) = some false
+      ∧ serveReq false rendered q = ⟨403, []⟩ := by
+  constructor
+  · have : checkAllowed (some nets) a = false := by
+      rw [Bool.eq_false_iff]
+      intro hc
+      obtain ⟨n, hn, hm⟩ := (allowed_iff_exists nets a).1 hc
+      rw [h n hn] at hm
+      cases hm
+    simp [Endpoint.isAllowed, this]
+  · simp [serveReq, handleHttpRequest, wire_forbidden]
+
+/-- **allow_inside_any_request**: a TCP peer that some listed network matches is served for every method,
+    header set and source port: 200 with "OK" for the path `/health`, 200 with the current rendering otherwise
+    (for `HEAD` the same status without body bytes). -/
+theorem allow_inside_any_request (addr : Nat) (nets : List Net) (n : Net) (hn : n ∈ nets) (a : Addr)
+    (port : Nat) (q : Req) (rendered : List Char) (h : peerMatches n a = true) :
+    (Endpoint.tcp addr (some nets)).isAllowed (.ip a port) = some true
+      ∧ serveReq true rendered q
+          = wire q.method ⟨200, if pathOf q.target = healthPath then okBody else rendered⟩ := by
+  constructor
+  · have : checkAllowed (some nets) a = true := (allowed_iff_exists nets a).2 ⟨n, hn, h⟩
+    simp [Endpoint.isAllowed, this]
+  · simp [serveReq, handleHttpRequest]
+
+/-- **request_only_path_matters**: two requests with the same path (and both `HEAD` or both not) get the same
+    answer: method, headers and query string are not inputs of the decision. -/
+theorem request_only_path_matters (ok : Bool) (rendered : List Char) (q q' : Req)
+    (hp : pathOf q.target = pathOf q'.target) (hm : q.method = headMethod ↔ q'.method = headMethod) :
+    serveReq ok rendered q = serveReq ok rendered q' := by
+  unfold serveReq wire
+  rw [hp]
+  by_cases h : q.method = headMethod
+  · simp [h, hm.1 h]
+  · have : ¬ q'.method = headMethod := fun h' => h (hm.2 h')
+    simp [h, this]
+
+/-- **port_irrelevant**: the source port of a TCP peer is not an input of the decision. -/
+theorem port_irrelevant (ep : Endpoint) (a : Addr) (p p' : Nat) :
+    ep.isAllowed (.ip a p) = ep.isAllowed (.ip a p') := by
+  cases ep <;> rfl
+
+/-- **uds_serves_everyone**: on a unix-socket endpoint every request is served (200), for every path. -/
+theorem uds_serves_everyone (p : Nat) (q : Req) (rendered : List Char) :
+    (Endpoint.uds p).isAllowed .unix = some true ∧ (serveReq true rendered q).status = 200 := by
+  refine ⟨rfl, ?_⟩
+  unfold serveReq wire handleHttpRequest
+  split <;> rfl
+
+/-! ## histories at an endpoint: accept errors, faults, other connections -/
+
+/-- sum of the metric updates of a history -/
+def updates : List Ev2 → Nat
+  | [] => 0
+  | .update n :: es => n + updates es
+  | _ :: es => updates es
+
+/-- **endpoint_invariant**: with the accept loop's error arm being `continue`, NO history — faulty
+    connections, accept errors (EMFILE, ECONNABORTED), any number of other clients — stops the listener or
+    changes its endpoint / allowlist; the metrics are the initial value plus all updates. -/
+theorem endpoint_invariant (render : Nat → List Char) (s : Sess2) (evs : List Ev2) :
+    (runState2 .continue render s evs).running = s.running
+      ∧ (runState2 .continue render s evs).ep = s.ep
+      ∧ (runState2 .continue render s evs).metrics = s.metrics + updates evs := by
+  induction evs generalizing s with
+  | nil => simp [runState2, updates]
+  | cons e es ih =>
+    cases e with
+    | update n =>
+      obtain ⟨h1, h2, h3⟩ := ih ({ s with metrics := s.metrics + n })
+      simp only [runState2, stepEv2, updates]
+      exact ⟨h1, h2, by rw [h3]; simp [Nat.add_assoc]⟩
+    | conn p rs =>
+      have hs : (stepEv2 .continue render s (.conn p rs)).1 = s := by
+        simp only [stepEv2]
+        split
+        · split <;> rfl
+        · rfl
+      simp only [runState2, hs, updates]; exact ih s
+    | fault k p => simpa [runState2, stepEv2, updates] using ih s
+    | acceptErr n => simpa [runState2, stepEv2, updates] using ih s
+
+/-- **later_clients_served**: after ANY history (faults, accept errors, concurrent and earlier connections) a
+    connection to a running listener gets exactly the answers the decision prescribes, computed from the metrics
+    as they are then: one answer per request, by the allowlist the listener was built with. -/
+theorem later_clients_served (render : Nat → List Char) (s : Sess2) (hr : s.running = true)
+    (pre : List Ev2) (peer : Peer) (reqs : List Req) :
+    (stepEv2 .continue render (runState2 .continue render s pre) (.conn peer reqs)).2 =
+      match s.ep.isAllowed peer with
+      | some ok => reqs.map (serveReq ok (render (s.metrics + updates pre)))
+      | none => [] := by
+  obtain ⟨h1, h2, h3⟩ := endpoint_invariant render s pre
+  simp only [stepEv2, h1, h2, h3, hr, if_true]
+  cases s.ep.isAllowed peer <;> rfl
+
+/-- **noise_transparent**: removing every faulty connection and every accept error from a history leaves the
+    answers of all remaining events unchanged (second layer of `faults_transparent`, now with accept errors). -/
+theorem noise_transparent (render : Nat → List Char) (s : Sess2) (evs : List Ev2) :
+    (run2 .continue render s evs).flatten
+      = (run2 .continue render s (evs.filter (fun e => !e.isNoise))).flatten := by
+  induction evs generalizing s with
+  | nil => rfl
+  | cons e es ih =>
+    cases e with
+    | update n => simp [run2, stepEv2, Ev2.isNoise, ih]
+    | conn p rs => simp [run2, Ev2.isNoise, ih]
+    | fault k p => simp [run2, stepEv2, Ev2.isNoise, ih]
+    | acceptErr n => simp [run2, stepEv2, Ev2.isNoise, ih]
+
+/-- **exit_arm_starves**: the previous three theorems depend on the error arm being `continue`: were it an exit
+    from the loop (`break` / `return` / `?`), one accept error would leave every later allowed client without an
+    answer.  (The arm is pinned by `src_listener_plumbing`; the harness provokes real accept errors by running
+    the process out of file descriptors.) -/
+theorem exit_arm_starves :
+    ∃ (s : Sess2) (pre : List Ev2) (peer : Peer) (reqs : List Req),
+      s.running = true ∧ s.ep.isAllowed peer = some true ∧ reqs ≠ [] ∧
+      (stepEv2 .exit (fun _ => []) (runState2 .exit (fun _ => []) s pre) (.conn peer reqs)).2 = [] :=
+  ⟨⟨.tcp 0 none, 0, true⟩, [.acceptErr 24], .ip ⟨.v4, 1⟩ 0, [⟨['G', 'E', 'T'], ['/'], []⟩],
+    rfl, rfl, by simp, rfl⟩
+
+/-- **run2_refines_run**: the first-layer histories (`run`: well-formed `GET`s, faults, updates) are the
+    second-layer histories of a TCP endpoint with that allowlist, from any source port, under either arm: all
+    first-layer theorems speak about `run2` as well. -/
+theorem run2_refines_run (arm : LoopAct) (render : Nat → List Char) (addr port : Nat) (s : Sess)
+    (evs : List Ev) :
+    (run2 arm render ⟨.tcp addr s.al, s.metrics, true⟩ (evs.map (Ev.lift port))).flatten
+      = run render s evs := by
+  induction evs generalizing s with
+  | nil => rfl
+  | cons e es ih =>
+    cases e with
+    | update n =>
+      simp only [List.map_cons, Ev.lift, run2, stepEv2, run, stepEv, List.flatten_cons, List.nil_append]
+      exact ih ⟨s.al, s.metrics + n⟩
+    | fault k p =>
+      simp only [List.map_cons, Ev.lift, run2, stepEv2, run, stepEv, List.flatten_cons, List.nil_append]
+      exact ih s
+    | req p t =>
+      have hg : (['G', 'E', 'T'] : List Char) ≠ headMethod := by decide
+      simp only [List.map_cons, Ev.lift, run2, stepEv2, run, stepEv, List.flatten_cons, if_true,
+        Endpoint.isAllowed, List.map_cons, List.map_nil, serveReq, wire, hg, if_false, respond]
+      rw [ih s]
+      rfl
+
 /-! ## tie (a): the source text has the shape the model assumes -/
 
 /-- **source_shape**: facts extracted from the current source by `tools/extract.py`: the builder documents
@@ -398,6 +631,55 @@ theorem source_shape :
     ∧ Generated.http_denied_status = "FORBIDDEN"
     ∧ Generated.http_denied_body = "Full::<Bytes>::default()"
     ∧ Generated.http_denied_branch_renders = false := by decide
+
+/-- the accept loop's error arm as read off the source: `continue` as last statement and nothing in the loop
+    that could leave it (`break`, `return`, `?`) -/
+def armOfSource (oneLoop : Bool) (errArmLast : String) (exits : List String) : LoopAct :=
+  if oneLoop ∧ errArmLast = "continue" ∧ exits = [] then .continue else .exit
+
+/-- **src_listener_plumbing**: facts extracted from the current source that no run on this machine can observe
+    in general.
+    * `process_tcp_stream` computes `is_allowed` once per connection from `check_tcp_allowed(&stream)` and hands
+      exactly that value (nothing or-ed to it: no method, header or port exception) to `handle_http_request`;
+      `process_uds_stream` hands `true` (`Endpoint.isAllowed`, `serveReq`).
+    * `check_tcp_allowed` calls exactly these methods in this order — no `.port()`, `.take(n)`, `.skip(n)` — and
+      `handle_http_request` mentions `req` once, for `req.uri()` (method, headers, body are not inputs).
+    * `serve_tcp` / `serve_uds` are one `loop` whose `Err` arm ends in `continue` and which contains no `break`,
+      `return` or `?` (`LoopAct.continue`: `endpoint_invariant`, `later_clients_served`).
+    * the served branch appends `Content-Type: text/plain`.
+    * `new_http_listener` stores the allowlist it is given, `new_http_uds_listener` stores `None`
+      (`Builder.build`); `build` takes `self.allowed_addresses` and passes it as third argument; the listener
+      calls of the builder assign `exporter_config` only, `add_allowed_address` touches `allowed_addresses` only
+      (`Builder.apply`); `new()` starts at `0.0.0.0:9000` without allowlist (`Builder.new`);
+      `install`'s own runtime is built with `enable_all()` (I/O driver present, the listener can be polled). -/
+theorem src_listener_plumbing :
+    Generated.tcp_is_allowed_binding = "self.check_tcp_allowed(&stream)"
+    ∧ Generated.tcp_service_call = "Self::handle_http_request(is_allowed,handle.clone(),req)"
+    ∧ Generated.tcp_is_allowed_uses = 2
+    ∧ Generated.uds_service_call = "Self::handle_http_request(true,handle.clone(),req)"
+    ∧ Generated.allow_check_all_calls
+        = ["peer_addr", "map_or_else", "ip", "to_ipv4_mapped", "map", "iter", "any", "contains", "map_or", "contains"]
+    ∧ Generated.http_req_reads = ["uri"] ∧ Generated.http_req_mentions = 1
+    ∧ armOfSource Generated.serve_tcp_is_one_loop Generated.serve_tcp_err_arm_last Generated.serve_tcp_loop_exits
+        = LoopAct.continue
+    ∧ Generated.serve_tcp_loop_calls = ["accept", "process_tcp_stream"]
+    ∧ armOfSource Generated.serve_uds_is_one_loop Generated.serve_uds_err_arm_last Generated.serve_uds_loop_exits
+        = LoopAct.continue
+    ∧ Generated.http_served_content_type = "append(CONTENT_TYPE,HeaderValue::from_static(\"text/plain\"))"
+    ∧ Generated.new_http_listener_fields = "{handle,allowed_addresses,listener_type:ListenerType::Tcp(listener),}"
+    ∧ Generated.new_uds_listener_fields = "{handle,allowed_addresses:None,listener_type:ListenerType::Uds(listener),}"
+    ∧ Generated.build_allowed_binding = "self.allowed_addresses.take()"
+    ∧ Generated.build_allowed_mentions = 3
+    ∧ Generated.build_tcp_call = "new_http_listener(handle,listen_address,allowed_addresses)"
+    ∧ Generated.build_uds_call = "new_http_uds_listener(handle,listen_path)"
+    ∧ Generated.with_http_listener_assigns = ["exporter_config"]
+    ∧ Generated.with_http_uds_listener_assigns = ["exporter_config"]
+    ∧ Generated.with_push_gateway_assigns = ["exporter_config"]
+    ∧ Generated.add_allowed_address_assigns = ["allowed_addresses"]
+    ∧ Generated.add_allowed_address_store = "self.allowed_addresses.get_or_insert(vec![]).push(address)"
+    ∧ Generated.builder_new_allowed = "None"
+    ∧ Generated.builder_new_listen = "SocketAddr::new(IpAddr::V4(Ipv4Addr::new(0,0,0,0)),9000)"
+    ∧ Generated.install_runtime_builders = ["new_current_thread().enable_all().build()"] := by decide
 
 /-! ## non-vacuity: concrete blocks, edges, both syntaxes -/
 
@@ -455,6 +737,34 @@ example :
       [.update 5, .fault 0 ⟨.v4, lo127 + 300⟩, .req ⟨.v4, lo127 + 300⟩ "/metrics".toList, .fault 2 ⟨.v4, 9⟩,
        .update 2, .req ⟨.v4, 9⟩ "/metrics".toList, .req ⟨.v4, lo127 + 300⟩ "/m".toList]
       = [⟨200, "5".toList⟩, ⟨403, []⟩, ⟨200, "7".toList⟩] := by decide
+
+-- the builder: `with_http_listener` AFTER `add_allowed_address` keeps the allowlist; UDS drops it
+example :
+    (Builder.new.applyAll [.allow ⟨.v4, lo127 + 1, none⟩, .pushGateway, .httpListener 1234]).map Builder.build
+      = some (.tcp 1234 (some [⟨.v4, lo127 + 1, 32⟩])) := by decide
+example :
+    (Builder.new.applyAll [.httpListener 1234, .allow ⟨.v4, lo127 + 1, some 8⟩, .udsListener 7]).map Builder.build
+      = some (.uds 7) := by decide
+example : (Builder.new.applyAll [.allow ⟨.v4, lo127 + 1, some 33⟩, .httpListener 1]).isNone = true := by decide
+
+-- whole requests: an outsider's OPTIONS with X-Forwarded-For from port 80 is refused, an insider's POST is served
+example :
+    (stepEv2 .continue (fun n => (toString n).toList) ⟨.tcp 1 (some nested), 5, true⟩
+      (.conn (.ip ⟨.v4, lo127 + 512⟩ 80)
+        [⟨"OPTIONS".toList, "/metrics".toList, [("x-forwarded-for".toList, "127.0.1.0".toList)]⟩])).2
+      = [⟨403, []⟩] := by decide
+example :
+    (stepEv2 .continue (fun n => (toString n).toList) ⟨.tcp 1 (some nested), 5, true⟩
+      (.conn (.ip ⟨.v4, lo127 + 300⟩ 80)
+        [⟨"POST".toList, "/metrics".toList, []⟩, ⟨"HEAD".toList, "/x".toList, []⟩, ⟨"GET".toList, "/health".toList, []⟩])).2
+      = [⟨200, "5".toList⟩, ⟨200, []⟩, ⟨200, "OK".toList⟩] := by decide
+
+-- accept errors in between: the later client is served the then-current value
+example :
+    run2 .continue (fun n => (toString n).toList) (Sess2.start (.tcp 1 (some nested)))
+      [.update 5, .acceptErr 24, .acceptErr 24, .fault 1 (.ip ⟨.v4, 9⟩ 1), .update 2,
+       .conn (.ip ⟨.v4, lo127 + 300⟩ 4000) [⟨"GET".toList, "/m".toList, []⟩]]
+      = [[], [], [], [], [], [⟨200, "7".toList⟩]] := by decide
 
 end examples
 
